@@ -13,7 +13,7 @@
    c = byte codes (for TX: 1000+b stands for a numeric character reference to byte b).
    Output tokens additionally: "TC" = CDATA section rewritten as escaped text. *)
 EXTENDS XmlInfoset, TLC, Json
-CONSTANTS MaxLen, Vocab, Emit
+CONSTANTS MaxLen, Vocab, Emit, EmitMod
 VARIABLES inp, depth, rootDone, phase, keep, pos, omit, out,
           stale, hit       \* history variables that name the known defect K11 (see Known below)
 vars == <<inp, depth, rootDone, phase, keep, pos, omit, out, stale, hit>>
@@ -224,7 +224,8 @@ DesignStrict == phase = "done" => Holds
 TypeOK == /\ phase \in {"gen", "run", "done"} /\ pos \in 0..Len(inp) + 1 /\ depth >= 0
           /\ (phase = "gen" => out = <<>>)
 \* hands every complete behaviour to the driver: input bytes, keepWs, predicted output bytes
-EmitCase == (Emit /\ phase = "done") =>
+\* (EmitMod > 1: of the longest documents only a deterministic 1/EmitMod sample is handed out)
+EmitCase == (Emit /\ phase = "done" /\ (Len(inp) < MaxLen \/ FoldLeft(LAMBDA a, b : a + b, 0, inp) % EmitMod = 0)) =>
               PrintT(ToJson([keep |-> keep, in |-> Render(InTokens, FALSE), out |-> Render(out, TRUE), known |-> Known, holds |-> Holds, tk |-> InTokens]))
 
 ---------------------------------------------------------------------------------------------
